@@ -4,6 +4,7 @@ package route
 
 import (
 	"fmt"
+	"regexp"
 	"strings"
 	"testing"
 
@@ -20,7 +21,7 @@ var c03Hosts = []string{"", "foo.com", "a.foo.com", "*.foo.com", "*foo.com", "*.
 var c03Paths = []string{"/", "/a", "/a/b", "/A", "/ä", "/A/b"}
 var c03GlobPaths = []string{"/a/*", "/a*"}
 
-var c03ReqHosts = []string{"foo.com", "FOO.com", "Foo.Com:80", "foo.com:443", "a.foo.com", "x.a.foo.com", "foo.com:8080", "bar.org", "", "A.Foo.Com:443"}
+var c03ReqHosts = []string{"foo.com", "FOO.com", "Foo.Com:80", "foo.com:443", "a.foo.com", "b.foo.com", "x.a.foo.com", "foo.com:8080", "bar.org", "", "A.Foo.Com:443"}
 var c03ReqPaths = []string{"/", "/a", "/a/b/c", "/A/b", "/x", "/ab", "/ä/x", "/a/b/c|/%61/b/c", "/a b|/a%20b"}
 
 func c03NormReqHost(h string, tls bool) string {
@@ -38,13 +39,22 @@ func c03HostMatch(pat, reqHost string, globDisabled bool) (class, suffix int) {
 	if pat == "" {
 		return 1, 0
 	}
-	if !strings.Contains(pat, "*") {
+	if !strings.ContainsAny(pat, "*?[{") {
 		if pat == reqHost {
 			return 3, len(pat)
 		}
 		return 0, 0
 	}
 	if globDisabled {
+		return 0, 0
+	}
+	if !strings.Contains(pat, "*") {
+		// a pattern without a star ({a,b}.foo.com, [ab].foo.com, ?.foo.com) is a pattern all the same: an exact host beats it
+		re := regexp.QuoteMeta(pat)
+		re = strings.NewReplacer(`\{`, "(", `\}`, ")", ",", "|", `\[`, "[", `\]`, "]", `\?`, ".").Replace(re)
+		if regexp.MustCompile("^" + re + "$").MatchString(reqHost) {
+			return 2, len(pat)
+		}
 		return 0, 0
 	}
 	lit := strings.TrimPrefix(pat, "*")
@@ -119,151 +129,159 @@ func c03Expect(routes []c03Route, matcher string, globDisabled bool, reqHost str
 
 func TestVerifC03Select(t *testing.T) {
 	L := ev.Begin("C03", "c03-select", "exploration",
-		"all tables of <=K routes over host patterns x paths (every second table is reached through a detour: all other pool routes are added for a temporary service and deleted again); all requests host x tls x path; matcher in prefix,iprefix,glob; glob matching on/off; reference = candidate set + precedence from the statement; every fifth table is followed by a reload that adds a route while the glob cache stays; the prefix / iprefix matchers on every pair of strings <=2 over letters and their ASCII neighbours. non-trivial = request with >=2 candidate routes")
+		"all tables of <=K routes over host patterns x paths, then all tables of <=3 routes over {host-less, foo.com, a.foo.com, one pattern without a star} x paths for the patterns {a,b}.foo.com, [ab].foo.com and ?.foo.com (every second table is reached through a detour: all other pool routes are added for a temporary service and deleted again); all requests host x tls x path; matcher in prefix,iprefix,glob; glob matching on/off; reference = candidate set + precedence from the statement; every fifth table is followed by a reload that adds a route while the glob cache stays; the prefix / iprefix matchers on every pair of strings <=2 over letters and their ASCII neighbours. non-trivial = request with >=2 candidate routes")
 	K := 3
 	if ev.Thorough() {
 		K = 4
 	}
-	var pool []c03Route
-	for _, h := range c03Hosts {
-		for _, p := range c03Paths {
-			pool = append(pool, c03Route{h, p})
+	// pass 0: the star patterns; passes 1-3: one pattern without a star next to exact hosts (one pattern per pass: the
+	// statement orders exact > pattern > host-less, not two patterns of different kinds among themselves)
+	hostSets := [][]string{c03Hosts, {"", "foo.com", "a.foo.com", "{a,b}.foo.com"}, {"", "foo.com", "a.foo.com", "[ab].foo.com"}, {"", "foo.com", "a.foo.com", "?.foo.com"}}
+	for pass, hostSet := range hostSets {
+		if pass > 0 {
+			K = 3
 		}
-	}
-	nLit := len(pool)
-	for _, h := range []string{"", "foo.com", "*.foo.com"} {
-		for _, p := range c03GlobPaths {
-			pool = append(pool, c03Route{h, p})
-		}
-	}
-	L.Set("route_pool", len(pool))
-	L.Set("max_routes_per_table", K)
-	subsets := vfSubsets(len(pool), K)
-	L.Set("tables", len(subsets))
-	matchers := []string{"prefix", "iprefix", "glob"}
-	vfParallel(len(subsets), func(si int) {
-		sub := subsets[si]
-		routes := make([]c03Route, len(sub))
-		hasGlobPath := false
-		var sb strings.Builder
-		for j, idx := range sub {
-			routes[j] = pool[idx]
-			if idx >= nLit {
-				hasGlobPath = true
+		var pool []c03Route
+		for _, h := range hostSet {
+			for _, p := range c03Paths {
+				pool = append(pool, c03Route{h, p})
 			}
-			fmt.Fprintf(&sb, "route add s%d %s%s http://10.0.0.%d:80/\n", j, pool[idx].host, pool[idx].path, j+1)
 		}
-		text := sb.String()
-		if si%2 == 1 {
-			// the same table reached from elsewhere: every other route of the pool is first given to a
-			// temporary service which is then deleted again - the result must behave like the table built directly
-			var pre strings.Builder
-			in := map[int]bool{}
-			for _, idx := range sub {
-				in[idx] = true
+		nLit := len(pool)
+		for _, h := range []string{"", "foo.com", "*.foo.com"} {
+			for _, p := range c03GlobPaths {
+				pool = append(pool, c03Route{h, p})
 			}
-			for idx, r := range pool {
-				if !in[idx] && (idx < nLit || hasGlobPath) {
-					fmt.Fprintf(&pre, "route add tmp %s%s http://10.9.9.9:9/\n", r.host, r.path)
+		}
+		L.Set("route_pool", len(pool))
+		L.Set("max_routes_per_table", K)
+		subsets := vfSubsets(len(pool), K)
+		L.Set("tables", len(subsets))
+		matchers := []string{"prefix", "iprefix", "glob"}
+		vfParallel(len(subsets), func(si int) {
+			sub := subsets[si]
+			routes := make([]c03Route, len(sub))
+			hasGlobPath := false
+			var sb strings.Builder
+			for j, idx := range sub {
+				routes[j] = pool[idx]
+				if idx >= nLit {
+					hasGlobPath = true
 				}
+				fmt.Fprintf(&sb, "route add s%d %s%s http://10.0.0.%d:80/\n", j, pool[idx].host, pool[idx].path, j+1)
 			}
-			text = pre.String() + text + "route del tmp\n"
-		}
-		tbl, err := vfTable(text)
-		if err != nil {
-			L.Violation("table-rejected", map[string]interface{}{"table": text, "err": err.Error()})
-			return
-		}
-		gc := NewGlobCache(100)
-		var n int64
-		for _, m := range matchers {
-			if hasGlobPath && m != "glob" {
-				continue // '*' in a path is only meaningful to the glob matcher
-			}
-			for _, gd := range []bool{false, true} {
-				for _, rh := range c03ReqHosts {
-					for _, tls := range []bool{false, true} {
-						for _, rp := range c03ReqPaths {
-							n++
-							exp := c03Expect(routes, m, gd, rh, tls, rp)
-							var got *Target
-							msg, _, pan := ev.Guard(func() {
-								got = tbl.Lookup(vfReq(rh, rp, tls), "", rrPicker, Matcher[m], gc, gd)
-							})
-							c := map[string]interface{}{"table": strings.Split(strings.TrimSpace(sb.String()), "\n"), "built_via_temporary_routes_and_route_del": si%2 == 1, "matcher": m, "globDisabled": gd, "host": rh, "tls": tls, "path": rp}
-							if pan {
-								c["panic"] = msg
-								L.Violation("lookup-panic", c)
-								continue
-							}
-							gi := -1
-							if got != nil {
-								fmt.Sscanf(got.Service, "s%d", &gi)
-							}
-							c["got"] = gi
-							var el []int
-							for j := range routes {
-								if exp[j] {
-									el = append(el, j)
-								}
-							}
-							c["expected_any_of"] = el
-							if len(exp) >= 2 || (len(exp) == 1 && c03Cands(routes, m, gd, rh, tls, rp) >= 2) {
-								L.NontrivialKey(fmt.Sprint(sub, m, gd, rh, tls, rp))
-							}
-							L.Outcome(fmt.Sprint(gi))
-							if si%97 == 0 && len(exp) > 0 {
-								L.Sample(c)
-							}
-							switch {
-							case len(exp) == 0 && got != nil:
-								L.Violation(c03Sig("routed-without-candidate", routes, m, gd, rh, gi), c)
-							case len(exp) > 0 && got == nil:
-								L.Violation(c03Sig("candidate-exists-but-not-routed", routes, m, gd, rh, gi), c)
-							case len(exp) > 0 && !exp[gi]:
-								L.Violation(c03Sig("not-most-specific", routes, m, gd, rh, gi), c)
-							}
-						}
+			text := sb.String()
+			if si%2 == 1 {
+				// the same table reached from elsewhere: every other route of the pool is first given to a
+				// temporary service which is then deleted again - the result must behave like the table built directly
+				var pre strings.Builder
+				in := map[int]bool{}
+				for _, idx := range sub {
+					in[idx] = true
+				}
+				for idx, r := range pool {
+					if !in[idx] && (idx < nLit || hasGlobPath) {
+						fmt.Fprintf(&pre, "route add tmp %s%s http://10.9.9.9:9/\n", r.host, r.path)
 					}
 				}
+				text = pre.String() + text + "route del tmp\n"
 			}
-		}
-		// the listener's glob cache outlives the table: after a reload that adds one more route, a cache that has
-		// seen the old table must give the answers a fresh cache gives
-		if si%5 == 0 {
-			extra := pool[(si*7+3)%nLit]
-			dup := false
-			for _, idx := range sub {
-				if pool[idx] == extra {
-					dup = true
+			tbl, err := vfTable(text)
+			if err != nil {
+				L.Violation("table-rejected", map[string]interface{}{"table": text, "err": err.Error()})
+				return
+			}
+			gc := NewGlobCache(100)
+			var n int64
+			for _, m := range matchers {
+				if hasGlobPath && m != "glob" {
+					continue // '*' in a path is only meaningful to the glob matcher
 				}
-			}
-			if !dup {
-				tbl2, err := vfTable(text + fmt.Sprintf("route add s9 %s%s http://10.0.0.9:80/\n", extra.host, extra.path))
-				if err == nil {
-					for _, m := range matchers {
-						if hasGlobPath && m != "glob" {
-							continue
-						}
-						for _, rh := range c03ReqHosts {
+				for _, gd := range []bool{false, true} {
+					for _, rh := range c03ReqHosts {
+						for _, tls := range []bool{false, true} {
 							for _, rp := range c03ReqPaths {
 								n++
-								var a, b *Target
-								ev.Guard(func() {
-									a = tbl2.Lookup(vfReq(rh, rp, false), "", rrPicker, Matcher[m], gc, false)
-									b = tbl2.Lookup(vfReq(rh, rp, false), "", rrPicker, Matcher[m], NewGlobCache(100), false)
+								exp := c03Expect(routes, m, gd, rh, tls, rp)
+								var got *Target
+								msg, _, pan := ev.Guard(func() {
+									got = tbl.Lookup(vfReq(rh, rp, tls), "", rrPicker, Matcher[m], gc, gd)
 								})
-								if (a == nil) != (b == nil) || (a != nil && a.Service != b.Service) {
-									L.Violation("answer-depends-on-what-the-glob-cache-saw-under-the-previous-table", map[string]interface{}{"table": strings.Split(strings.TrimSpace(sb.String()), "\n"), "route_added_by_the_reload": extra.host + extra.path, "matcher": m, "host": rh, "path": rp})
+								c := map[string]interface{}{"table": strings.Split(strings.TrimSpace(sb.String()), "\n"), "built_via_temporary_routes_and_route_del": si%2 == 1, "matcher": m, "globDisabled": gd, "host": rh, "tls": tls, "path": rp}
+								if pan {
+									c["panic"] = msg
+									L.Violation("lookup-panic", c)
+									continue
+								}
+								gi := -1
+								if got != nil {
+									fmt.Sscanf(got.Service, "s%d", &gi)
+								}
+								c["got"] = gi
+								var el []int
+								for j := range routes {
+									if exp[j] {
+										el = append(el, j)
+									}
+								}
+								c["expected_any_of"] = el
+								if len(exp) >= 2 || (len(exp) == 1 && c03Cands(routes, m, gd, rh, tls, rp) >= 2) {
+									L.NontrivialKey(fmt.Sprint(pass, sub, m, gd, rh, tls, rp))
+								}
+								L.Outcome(fmt.Sprint(gi))
+								if si%97 == 0 && len(exp) > 0 {
+									L.Sample(c)
+								}
+								switch {
+								case len(exp) == 0 && got != nil:
+									L.Violation(c03Sig("routed-without-candidate", routes, m, gd, rh, gi), c)
+								case len(exp) > 0 && got == nil:
+									L.Violation(c03Sig("candidate-exists-but-not-routed", routes, m, gd, rh, gi), c)
+								case len(exp) > 0 && !exp[gi]:
+									L.Violation(c03Sig("not-most-specific", routes, m, gd, rh, gi), c)
 								}
 							}
 						}
 					}
 				}
 			}
-		}
-		L.AddCases(n)
-	})
+			// the listener's glob cache outlives the table: after a reload that adds one more route, a cache that has
+			// seen the old table must give the answers a fresh cache gives
+			if si%5 == 0 {
+				extra := pool[(si*7+3)%nLit]
+				dup := false
+				for _, idx := range sub {
+					if pool[idx] == extra {
+						dup = true
+					}
+				}
+				if !dup {
+					tbl2, err := vfTable(text + fmt.Sprintf("route add s9 %s%s http://10.0.0.9:80/\n", extra.host, extra.path))
+					if err == nil {
+						for _, m := range matchers {
+							if hasGlobPath && m != "glob" {
+								continue
+							}
+							for _, rh := range c03ReqHosts {
+								for _, rp := range c03ReqPaths {
+									n++
+									var a, b *Target
+									ev.Guard(func() {
+										a = tbl2.Lookup(vfReq(rh, rp, false), "", rrPicker, Matcher[m], gc, false)
+										b = tbl2.Lookup(vfReq(rh, rp, false), "", rrPicker, Matcher[m], NewGlobCache(100), false)
+									})
+									if (a == nil) != (b == nil) || (a != nil && a.Service != b.Service) {
+										L.Violation("answer-depends-on-what-the-glob-cache-saw-under-the-previous-table", map[string]interface{}{"table": strings.Split(strings.TrimSpace(sb.String()), "\n"), "route_added_by_the_reload": extra.host + extra.path, "matcher": m, "host": rh, "path": rp})
+									}
+								}
+							}
+						}
+					}
+				}
+			}
+			L.AddCases(n)
+		})
+	}
 	// the matchers themselves, on every pair of short strings over letters in both cases and the characters that sit
 	// next to them in ASCII (a case fold that is not restricted to letters confuses them)
 	alpha := []byte("aA~^[{@`_\x7f1/")
